@@ -131,6 +131,9 @@ func (in *Interp) branch(c *Term) bool {
 	if in.concrete {
 		panic(fmt.Sprintf("symbolic branch in concrete mode: %s", c.body()))
 	}
+	if in.noFork {
+		panic(unsupported{"decision inside a speculatively executed branch arm"})
+	}
 	if in.pos < len(in.path) {
 		d := in.path[in.pos]
 		in.pos++
@@ -211,6 +214,9 @@ func (in *Interp) choose(k int, cond func(i int) *Term) int {
 	if in.concrete {
 		panic("n-way decision in concrete mode")
 	}
+	if in.noFork {
+		panic(unsupported{"decision inside a speculatively executed branch arm"})
+	}
 	if in.pos < len(in.path) {
 		d := in.path[in.pos]
 		in.pos++
@@ -278,6 +284,9 @@ func (in *Interp) concretize(t *Term, n int) int {
 	}
 	if in.concrete {
 		panic("concretize in concrete mode")
+	}
+	if in.noFork {
+		panic(unsupported{"decision inside a speculatively executed branch arm"})
 	}
 	cond := func(i int) *Term { return mkEq(t, mkBV(uint64(i), t.sort.w)) }
 	if in.pos < len(in.path) {
